@@ -17,7 +17,10 @@ RULE = ("projects with 1-4 dependencies declared in the legacy table form (versi
         "least one condition (python, platform, markers, optional)")
 
 def gen_dep(rng, i):
-    d = dict(name=f"dep{i}", version=None, python=None, platform=None, markers=None, optional=False)
+    # names as projects are really called: capitals, '_' and '.' (the metadata carries the PEP 503 normal form; the extras table
+    # repeats the name as the author wrote it)
+    d = dict(name=rng.choice([f"dep{i}", f"dep{i}", f"Dep_{i}", f"dep.{i}", f"DEP-{i}", f"ruamel.yaml{i}", f"Py_YAML{i}"]),
+             version=None, python=None, platform=None, markers=None, optional=False)
     pool = GC.gen_pool(rng, n=3, locals_=False, epochs=False, self_regular=True)
     ops = ["==", "<", "<=", ">", ">=", "~=", "^", "~", ">=", ""]
     cl = [GC.gen_clause(rng, pool, ops).replace(" ", "") for _ in range(rng.choice([1, 1, 2]))]
@@ -64,12 +67,16 @@ def project(deps, python, extras, style):
             for k in ("python", "platform", "markers"):
                 if d[k]: parts.append(f"{k} = {json.dumps(d[k])}")
             if d["optional"]: parts.append("optional = true")
-            L.append(f"{d['name']} = {{{', '.join(parts)}}}")
+            L.append(f"{json.dumps(d['name'])} = {{{', '.join(parts)}}}")
         if extras:
             L.append("[tool.poetry.extras]")
             for e, names in extras.items(): L.append(f"{json.dumps(e)} = {json.dumps(names)}")
     L += ["[build-system]", 'requires = ["poetry-core"]', 'build-backend = "poetry.core.masonry.api"']
     return "\n".join(L) + "\n"
+
+def canon(n):
+    import re
+    return re.sub(r"[-_.]+", "-", n).lower()
 
 def metadata(text):
     from poetry.core.factory import Factory
@@ -147,7 +154,7 @@ def run(tier):
                     R.fail(case, f"Requires-Python {rp!r} admits {py} = {got}, declared python {python!r} says {not got}", d16_matcher); break
         if sorted(msg.get_all("Provides-Extra") or []) != sorted(extras): R.fail(case, f"Provides-Extra {msg.get_all('Provides-Extra')} != {sorted(extras)}")
         for d in deps:
-            mine = [l for l in lines if l.split(" ")[0].split(";")[0].split("(")[0] == d["name"]]
+            mine = [l for l in lines if canon(l.split(" ")[0].split(";")[0].split("(")[0].split("[")[0]) == canon(d["name"])]
             if len(mine) != 1:
                 R.fail(case, f"dependency {d['name']} has {len(mine)} Requires-Dist lines: {lines}", d14_matcher); continue
             line = mine[0]
